@@ -44,6 +44,42 @@ CHECKS["C07"] = dict(
     text="Map/repeat consistency clauses of the vault invariant proved for set/insert/delete of items of all three kinds.",
     note=TB + " lxml child-list operations as an abstract sequence model (flat table layout).",
     technique="representation invariant, VCs from the real AST, z3")
+BND = " Bounded stand-ins (specs/b_*.py, labelled bounded in the evidence, never counted as proved) cover the API-level behaviour over stated small scopes."
+CHECKS["C01"]["text"] = ("Run-length vault layer proved for all states: map kernel, set/insert/delete of an item in a Row or Table vault "
+    "(invariant, pointwise grid view, length, exact abstract operation), and the Row-level cell operations on top of them "
+    "(modular use of the proved abstract operations); the overlap input class of set is a listed known finding." )
+CHECKS["C01"]["note"] = TB + " lxml child-list operations as an abstract sequence model (flat table layout)." + BND
+CHECKS["C02"]["note"] += BND
+CHECKS["C07"]["note"] += BND
+CHECKS["C05"] = dict(
+    text="text:s encoding proved against the raw lxml attribute model (count attribute written only for >= 2, length and "
+         "text read it back); the paragraph pipeline (append_plain_text, splits, re-parse, white-space normal form) is a bounded stand-in.",
+    note=TB + BND, technique="contracts over an lxml attribute model, z3; bounded native contracts for the lxml pipeline")
+CHECKS["C08"] = dict(
+    text="Row getters proved for all run-length states: content at the addressed position, x/y stamps, detached copy when "
+         "cloning or reading outside, no growth (frame), invariant kept; vault results are fresh nodes (exact clause).",
+    note=TB + BND, technique="postconditions + freshness over the abstract XML model, z3")
+CHECKS["C10"] = dict(
+    text="No-alias clauses of the map kernel (returned list fresh or the argument itself, argument untouched), clone-or-"
+         "argument identity of the nodes inserted by the vault operations and detached copies of the Row getters proved.",
+    note=TB + BND, technique="heap identity / freshness clauses in the VC generator, z3")
+CHECKS["C11"] = dict(
+    text="Frame condition: the serialisation / pretty-printing entry points of XmlPart do not modify the in-memory trees "
+         "(modular effect inference over the real AST); layout-only equivalence of the saves is a bounded stand-in.",
+    note="effect inference assumptions (closed world, lxml base facts)." + BND,
+    technique="modular effect (frame) inference with function summaries; bounded native contracts")
+CHECKS["C12"] = dict(
+    text="Attribute machinery proved against the raw lxml attribute model: Element.get/set/del_attribute and "
+         "get_attribute_string for str/bool/None values, repeat-attribute setters and getters; registry, constructors and access paths bounded.",
+    note=TB + BND, technique="contracts over an lxml attribute model, z3; bounded native contracts over the real registry")
+CHECKS["C15"] = dict(
+    text="modifies(XML trees) = {} proved for 304 of 307 mechanically enumerated read-only entry points by a modular "
+         "effect inference (function summaries, fixpoint); the 3 others are listed (two are a known finding); plus bounded replay.",
+    note="effect inference assumptions (closed world, lxml base facts)." + BND,
+    technique="modular effect (frame) inference with function summaries")
+CHECKS["C20"] = dict(
+    text="The numbering function of the TOC and of the heading-listing tool proved against the outline-numbering spec "
+         "with a symbolic-key dict model and loop invariants (same contract on both); TOC.fill itself is a bounded stand-in.",
+    note=TB + BND, technique="contracts + loop invariants over a dict model, z3")
 NOT_APPLICABLE = {p: "not yet under contract in this revision (work in progress; see DESIGN.md §4 for the plan)"
-                  for p in ["C03", "C04", "C05", "C08", "C09", "C10", "C11", "C12", "C13",
-                            "C15", "C16", "C17", "C20"]}
+                  for p in ["C03", "C04", "C09", "C13", "C16", "C17"]}
